@@ -128,7 +128,8 @@ JudgeRun(e, ch, tainted) ==
            sleeps == IF HasF(e, "sleeps") THEN e.sleeps ELSE 0
        IN \* time: only one-sided, causally sound inequalities (never a wall-clock equality)
           IF e.ret = "TimeLimitExceeded"
-          THEN (IF e.elapsed_ms > cfg.time_limit /\ \E k \in 1..Len(c2) : e.post = c2[k].st
+          \* (the recorded milliseconds are truncated, so "more than the limit elapsed" shows as >=)
+          THEN (IF e.elapsed_ms >= cfg.time_limit /\ \E k \in 1..Len(c2) : e.post = c2[k].st
                 THEN Blank("ok", "run:time")
                 ELSE Verdict("mismatch", "run", "C02", <<"outcome">>,
                              "TimeLimitExceeded although only " \o ToString(e.elapsed_ms) \o " ms elapsed, or the state left behind is not a state of the single-step chain"))
